@@ -10,7 +10,7 @@ NA={
 }
 TECH={
  "C01":"deterministic simulation: seeded schedule search, per-instance history invariants on the server channel",
- "C02":"deterministic simulation: seeded schedule/timer search, safety invariant evaluated at every verdict",
+ "C02":"deterministic simulation: seeded schedule/timer search, safety invariant evaluated at every verdict; recorded sessions re-delivered with their input queued before start-up",
  "C03":"deterministic simulation: per-step progress obligation + bounded liveness after faults stop",
  "C05":"deterministic simulation: reference model of service replies vs verdict content",
  "C06":"deterministic simulation: per-step obligation and field-by-field reconstruction of every query",
@@ -18,8 +18,8 @@ TECH={
  "C10":"deterministic simulation with real libevent timers on a simulated clock: reference count model, structural audit, ASan/LSan at exit; differential burst runs (same history, several lines per read)",
  "C11":"deterministic simulation: independent rule evaluator compared at every acceptance",
  "C04":"deterministic simulation, differential: same seeded history with and without one injected stray reply, byte-equal outputs",
- "C07":"deterministic simulation, metamorphic: per-client projections equal across seeded interleavings (and vs solo runs), with id take-over, late replies, a crowd of earlier clients and a table reload at fixed per-client positions",
- "C08":"deterministic simulation with fault injection on the byte pipe: arbitrary bytes, read boundaries, EINTR/EAGAIN, EOF at any byte; sanitizer/exit oracle + differential outputs",
+ "C07":"deterministic simulation, metamorphic: per-client projections equal across seeded interleavings (and vs solo runs), with id take-over, late replies, a crowd of earlier clients, one or two table reloads at fixed per-client positions, backlogs in the same write, and the server channel as one socket whose peer reads slowly",
+ "C08":"deterministic simulation with fault injection on the byte pipe: arbitrary bytes, read boundaries (also reads of exactly 4096 bytes), EINTR/EAGAIN, EOF at any byte, input queued before start-up; sanitizer/exit oracle + differential outputs",
  "C14":"deterministic simulation: torn/garbled/missing config and failing fread at reload, dump-before == dump-after + hook log + ASan",
  "C15":"deterministic simulation: seeded reload/registration histories against a reference model of the config store",
  "C17":"deterministic simulation, differential: reloaded daemon vs freshly started daemon on the same probe clients",
